@@ -2,7 +2,7 @@
 Attribution for arbitrary programs rests on C04's undecided exactness. DESIGN.md section 4, C07."""
 import itertools
 from .common import *
-from .C04 import stamping_rule, table_walk_rules
+from .C04 import list_total_rule, stamping_rule, table_walk_rules
 from cpv.ceval import Evaluator, Unknown
 
 PL = "MemoryLeakWarningPlugin"
@@ -143,6 +143,9 @@ def check(ctx, run):
     # the demotion (and the report) walk the table with getFirstLeak/getNextLeak: a walker that skips records leaves
     # their checking-period stamp for the next test
     table_walk_rules(prog, run, "R2", "R2", only=("getFirstLeak", "getNextLeak"))
+    # the verdict counts through getTotalLeaks: table level (every bucket asked with the period) and list level
+    table_walk_rules(prog, run, "R1", "R1", only=("getTotalLeaks",))
+    list_total_rule(prog, run, "R1")
     ct = [f for f in prog.methods_of(DET) if f.kind == "ctor"][0]
     e1 = Evaluator(prog, ct, env={q["name"]: 7000 + i_ for i_, q in enumerate(ct.params)}, calls={"SimpleMutex::SimpleMutex": lambda *a_: 0})
     e1.objects = True
